@@ -325,16 +325,16 @@ class _Capture:
 _RUN_CACHE = {}
 
 
-def run_main(sub, cli, ftoml, fjson, has_toml, stdin_bytes, style=0):
+def run_main(sub, cli, ftoml, fjson, has_toml, stdin_bytes, style=0, extra=None):
     """memoised per worker process (the run is deterministic): the property oracle re-uses the observation made for
     the correspondence check of the same case"""
-    key = json.dumps([sub, cli, ftoml, fjson, bool(has_toml), stdin_bytes.hex(), style], sort_keys=True)
+    key = json.dumps([sub, cli, ftoml, fjson, bool(has_toml), stdin_bytes.hex(), style, extra], sort_keys=True)
     if key not in _RUN_CACHE:
-        _RUN_CACHE[key] = _run_main(sub, cli, ftoml, fjson, has_toml, stdin_bytes, style)
+        _RUN_CACHE[key] = _run_main(sub, cli, ftoml, fjson, has_toml, stdin_bytes, style, extra)
     return _RUN_CACHE[key]
 
 
-def _run_main(sub, cli, ftoml, fjson, has_toml, stdin_bytes, style=0):
+def _run_main(sub, cli, ftoml, fjson, has_toml, stdin_bytes, style=0, extra=None):
     """run bits.__main__.main() in-process; returns dict(config, out, ret, handlers, calls)"""
     import secrets
     import shutil
@@ -374,6 +374,7 @@ def _run_main(sub, cli, ftoml, fjson, has_toml, stdin_bytes, style=0):
     saved = {
         "argv": sys.argv, "stdin": sys.stdin, "stdout": sys.stdout, "stderr": sys.stderr,
         "Config": M.Config, "HAS": C.HAS_TOMLLIB, "key": bits.keys.key, "token_bytes": secrets.token_bytes,
+        "randbelow": secrets.randbelow,
         "getpass": M.getpass, "rpc_method": bits.rpc.rpc_method, "send_tx": bits.tx.send_tx,
         "mine_block": M.mine_block, "magic": bits.p2p.set_magic_start_bytes, "Node": bits.p2p.Node,
         "levels": [(h, h.level) for h in bits.log.handlers], "set_log_level": bits.set_log_level,
@@ -388,7 +389,7 @@ def _run_main(sub, cli, ftoml, fjson, has_toml, stdin_bytes, style=0):
         if ftoml is not None:
             with open(os.path.join(tmp, "config.toml"), "w") as f:
                 f.write(_toml_text(ftoml))
-        argv = ["bits", "--config-dir", tmp] + (([sub] + POSITIONALS.get(sub, [])) if sub else [])
+        argv = ["bits", "--config-dir", tmp] + (([sub] + (POSITIONALS.get(sub, []) if extra is None else list(extra))) if sub else [])
         argv += render_argv(sub, cli, style)
         sys.argv = argv
         sys.stdin = io.TextIOWrapper(io.BytesIO(stdin_bytes), encoding="utf-8")
@@ -398,6 +399,7 @@ def _run_main(sub, cli, ftoml, fjson, has_toml, stdin_bytes, style=0):
         C.HAS_TOMLLIB = bool(has_toml)
         bits.keys.key = lambda: FIXED_KEY
         secrets.token_bytes = lambda n=32: bytes(n)
+        secrets.randbelow = lambda n: 0x1234567 % n        # ECDSA nonce of `bits sig`: fixed, so that runs are comparable
         M.getpass = lambda prompt="": ""
         bits.rpc.rpc_method = stub("rpc_method", "ok")
         bits.tx.send_tx = stub("send_tx", b"\x01\x02")
@@ -427,6 +429,7 @@ def _run_main(sub, cli, ftoml, fjson, has_toml, stdin_bytes, style=0):
         C.HAS_TOMLLIB = saved["HAS"]
         bits.keys.key = saved["key"]
         secrets.token_bytes = saved["token_bytes"]
+        secrets.randbelow = saved["randbelow"]
         M.getpass = saved["getpass"]
         bits.rpc.rpc_method = saved["rpc_method"]
         bits.tx.send_tx = saved["send_tx"]
@@ -438,6 +441,165 @@ def _run_main(sub, cli, ftoml, fjson, has_toml, stdin_bytes, style=0):
             h.setLevel(lvl)
         shutil.rmtree(tmp, ignore_errors=True)
     return res
+
+
+# ======================================================================================
+# behaviour of every branch of main() that reads / writes with a configured format
+# ======================================================================================
+# id -> (subcommand, argv after the subcommand name, data fed THROUGH input_format | None, always-raw stdin | None,
+#        reads with config.input_format, writes with config.output_format,
+#        the (subcommand, enclosing conditions, function) io-calls of main() it exercises)
+_CONDS_ENT = "not (args.from_entropy) & args.to_entropy or args.to_seed or args.to_master_key"
+SCENARIOS = {
+    "base": ("", [], "DATA", None, True, True, [("", "", "read_bytes"), ("", "", "write_bytes")]),
+    "key": ("key", [], None, None, False, True, [("key", "", "write_bytes")]),
+    "pubkey": ("pubkey", [], "KEY", None, True, True, [("pubkey", "", "read_bytes"), ("pubkey", "", "write_bytes")]),
+    "mnemonic-from-entropy": ("mnemonic", ["--from-entropy"], "ENT", None, True, False,
+                              [("mnemonic", "args.from_entropy", "read_bytes")]),
+    "mnemonic-to-entropy": ("mnemonic", ["--to-entropy"], None, "MNEMONIC", False, True,
+                            [("mnemonic", _CONDS_ENT + " & args.to_entropy", "write_bytes")]),
+    "mnemonic-to-seed": ("mnemonic", ["--to-seed"], None, "MNEMONIC", False, True,
+                         [("mnemonic", _CONDS_ENT + " & not (args.to_entropy) & args.to_seed or args.to_master_key", "write_bytes")]),
+    "wif": ("wif", [], "KEY", None, True, False, [("wif", "", "read_bytes")]),
+    "base58": ("base58", [], "DATA", None, True, False, [("base58", "", "read_bytes")]),
+    "base58-decode": ("base58", ["--decode"], None, "B58", False, True, [("base58", "args.decode", "write_bytes")]),
+    "bech32": ("bech32", ["--hrp=bc"], "H160", None, True, False, [("bech32", "", "read_bytes")]),
+    "ripemd160": ("ripemd160", [], "DATA", None, True, True, [("ripemd160", "", "read_bytes"), ("ripemd160", "", "write_bytes")]),
+    "sha256": ("sha256", [], "DATA", None, True, True, [("sha256", "", "read_bytes"), ("sha256", "", "write_bytes")]),
+    "hash160": ("hash160", [], "DATA", None, True, True, [("hash160", "", "read_bytes"), ("hash160", "", "write_bytes")]),
+    "hash256": ("hash256", [], "DATA", None, True, True, [("hash256", "", "read_bytes"), ("hash256", "", "write_bytes")]),
+    "addr": ("addr", [], "H160", None, True, False, [("addr", "", "read_bytes")]),
+    "tx-decode": ("tx", ["--decode"], "TX", None, True, False, [("tx", "args.decode", "read_bytes")]),
+    "script": ("script", ["OP_DUP", "OP_HASH160"], None, None, False, True, [("script", "", "write_bytes")]),
+    "sig-verify": ("sig", ["{MSG}", "--verify", "--signature", "{SIG}"], "PUB", None, True, False,
+                   [("sig", "args.verify", "read_bytes")]),
+    "sig-sign": ("sig", ["{MSG}"], "KEY", None, True, True, [("sig", "", "read_bytes"), ("sig", "", "write_bytes")]),
+    "send": ("send", ["addr1", "addr2"], None, None, False, True, [("send", "", "write_bytes")]),
+    "blockchain-in": ("blockchain", ["--header-only"], "BLOCK", None, True, True,
+                      [("blockchain", "args.blockheight is None", "read_bytes"), ("blockchain", "", "write_bytes")]),
+    "blockchain-0": ("blockchain", ["0"], None, None, False, True, [("blockchain", "", "write_bytes")]),
+}
+_FIX = {}
+
+
+def fixtures():
+    """inputs that make each branch succeed (computed once per worker process with the library itself)"""
+    if not _FIX:
+        import secrets
+        import bits
+        import bits.base58
+        import bits.blockchain
+        import bits.keys
+        import bits.tx
+        from bits.bips import bip39
+        old = secrets.randbelow
+        secrets.randbelow = lambda n: 0x1234567 % n
+        try:
+            msg = bytes.fromhex("00112233445566778899aabbccddeeff")
+            _FIX.update({
+                "DATA": b"\x00\x01abc", "KEY": FIXED_KEY, "ENT": bytes(range(16)), "H160": bytes(range(20)),
+                "PUB": bits.keys.pub(FIXED_KEY, compressed=True), "MSG": msg.hex(),
+                "SIG": bits.sig(FIXED_KEY, msg, sighash_flag=1).hex(),
+                "MNEMONIC": (bip39.calculate_mnemonic_phrase(bytes(range(16))) + "\n").encode(),
+                "B58": bits.base58.base58encode(b"hello world"),
+                "TX": bits.tx.tx([bits.tx.txin(bits.tx.outpoint(bytes(range(32)), 1), b"\x51")],
+                                 [bits.tx.txout(1000, b"\x51")]),
+                "BLOCK": bits.blockchain.genesis_block(),
+            })
+        finally:
+            secrets.randbelow = old
+    return _FIX
+
+
+def _decode_out(fmt, out):
+    """the bytes denoted by what a branch wrote in representation fmt"""
+    if fmt == "raw":
+        return out
+    core = out.decode("utf-8").strip()
+    if not _is_digits(fmt, core):
+        raise ValueError("output %r is not a %s string" % (out, fmt))
+    return ref_pad_read(fmt, core)
+
+
+def io_runs(scn, has_toml, fin, fout, source):
+    """(reference run, config-only run, reference output format): the same branch once with the formats given by
+    explicit flags (where the subcommand accepts them; otherwise left at the default hex) and no file, once with the
+    formats ONLY in config.json / config.toml and no flag"""
+    sub, argv, data_name, raw_name, reads, writes, _ = SCENARIOS[scn]
+    fx = fixtures()
+    argv = [a.format(**{k: v for k, v in fx.items() if isinstance(v, str)}) for a in argv]
+    acc = ACCEPTS[sub]
+    arg_of = {"raw": None, "hex": "x", "bin": "b"}
+    cli_a, fin_a, fout_a = [], "hex", "hex"
+    if "input_format" in acc:
+        cli_a.append(("input_format", arg_of[fin]))
+        fin_a = fin
+    if "output_format" in acc:
+        cli_a.append(("output_format", arg_of[fout]))
+        fout_a = fout
+    good = {"input_format": fin, "output_format": fout}
+    other = {"input_format": FORMATS[(FORMATS.index(fin) + 1) % 3], "output_format": FORMATS[(FORMATS.index(fout) + 2) % 3]}
+    if source == "json":
+        fj, ft = good, None
+    elif source == "toml":
+        fj, ft = None, good
+    else:                       # both files: the one that must be ignored holds other values
+        fj, ft = (other, good) if has_toml else (good, other)
+    if source == "toml" and not has_toml:
+        # config.toml is not read without TOML support: the defaults are in effect
+        good = {"input_format": "hex", "output_format": "hex"}
+
+    def stdin_for(f):
+        if raw_name:
+            return fx[raw_name]
+        if data_name:
+            return ref_encode_input(f, fx[data_name])
+        return b""
+    ra = run_main(sub, cli_a, None, None, has_toml, stdin_for(fin_a), 0, argv if sub else None)
+    rb = run_main(sub, [], ft, fj, has_toml, stdin_for(good["input_format"]), 0, argv if sub else None)
+    return ra, rb, fout_a, good["output_format"], (sub, argv, cli_a, ft, fj)
+
+
+def io_verdict(scn, has_toml, fin, fout, source):
+    """None if the config-only run behaves exactly like the explicit run, else a description"""
+    sub, _, _, _, reads, writes, _ = SCENARIOS[scn]
+    ra, rb, fout_a, fout_b, (sub, argv, cli_a, ft, fj) = io_runs(scn, has_toml, fin, fout, source)
+    what = "`bits %s %s` with config.toml=%r config.json=%r (TOML %ssupported) and no format flag" % (
+        sub, " ".join(argv), ft, fj, "" if has_toml else "not ")
+    ref = "the same command with %s and no file" % (" ".join("%s=%s" % (d, ref_format_arg(a)) for d, a in cli_a) or "defaults")
+    if ra["exit"] is not None or (isinstance(ra["ret"], str) and ra["ret"].startswith("ERROR")):
+        return "reference run failed (%s): exit=%r ret=%r" % (ref, ra["exit"], ra["ret"])
+    if rb["exit"] is not None or (isinstance(rb["ret"], str) and rb["ret"].startswith("ERROR")):
+        return "%s fails: exit=%r ret=%r, although %s succeeds" % (what, rb["exit"], rb["ret"], ref)
+    if ra["ret"] != rb["ret"]:
+        return "%s returns %r, %s returns %r" % (what, rb["ret"], ref, ra["ret"])
+    if writes:
+        try:
+            pa, pb = _decode_out(fout_a, ra["out"]), _decode_out(fout_b, rb["out"])
+        except ValueError as e:
+            return "%s: %s (reference wrote %r)" % (what, e, ra["out"][:80])
+        if pa != pb:
+            return "%s wrote %r (= %s as %s), but %s wrote %r (= %s)" % (
+                what, rb["out"][:80], pb.hex()[:64], fout_b, ref, ra["out"][:80], pa.hex()[:64])
+        if fout_a == fout_b and ra["out"] != rb["out"]:
+            return "%s wrote %r, %s wrote %r" % (what, rb["out"][:80], ref, ra["out"][:80])
+    elif ra["out"] != rb["out"]:
+        return "%s wrote %r, but %s wrote %r" % (what, rb["out"][:80], ref, ra["out"][:80])
+    return None
+
+
+def impl_main_io(scn, has_toml, fin, fout, source):
+    return io_verdict(scn, has_toml, fin, fout, source) is None
+
+
+def impl_io_branches():
+    """the read_bytes / write_bytes calls of the live main() that use a configured format"""
+    import inspect
+    import bits.__main__ as M
+    import gen_c20
+    _, calls = gen_c20.scan_main_module(inspect.getsource(M), set(CONFIG_KEYS))
+    return sorted([su, pa, f] for (su, pa, f, e) in calls if e.startswith("config."))
+
 
 
 class MainError(Exception):
@@ -508,6 +670,8 @@ IMPL = {
     "main_base": impl_main_base,
     "main_sub": impl_main_sub,
     "accepts_table": impl_accepts_table,
+    "main_io": impl_main_io,
+    "io_branches": impl_io_branches,
     "format_option": lambda s: __import__("bits.__main__").__main__.format_option(s),
 }
 
@@ -530,6 +694,21 @@ def model_call(c):
     if op == "main_sub":
         has_toml, sub, cli, ftoml, fjson = a[:5]
         return "c20_main_config", [has_toml, sub, cli, ftoml, fjson]
+    if op == "main_io":
+        scn, has_toml, fin, fout, source = a
+        sub = SCENARIOS[scn][0]
+        good = [["input_format", fin], ["output_format", fout]]
+        other = [["input_format", FORMATS[(FORMATS.index(fin) + 1) % 3]], ["output_format", FORMATS[(FORMATS.index(fout) + 2) % 3]]]
+        if source == "json":
+            fj, ft = good, None
+        elif source == "toml":
+            fj, ft = None, good
+        else:
+            fj, ft = (other, good) if has_toml else (good, other)
+        if source == "toml" and not has_toml:
+            fin = fout = "hex"
+        # the model confirms which formats are in effect for the config-only run
+        return "c20_io_formats", [has_toml, sub, [], ft, fj, fin, fout]
     return "c20_" + op, a
 
 
@@ -832,8 +1011,29 @@ def gen_prec_cases(rng, tier):
     return out
 
 
+def gen_io_cases(rng, tier):
+    """every branch of main() that reads / writes with a configured format, the formats coming ONLY from the files"""
+    T = tier == "thorough"
+    out = []
+    for si, scn in enumerate(sorted(SCENARIOS)):
+        _, _, _, _, reads, writes, _ = SCENARIOS[scn]
+        fins = FORMATS if reads else ["hex"]
+        fouts = FORMATS if writes else ["hex"]
+        n = 0
+        for fin in fins:
+            for fout in fouts:
+                for source in ("json", "toml", "both"):
+                    for has_toml in (True, False):
+                        n += 1
+                        if not T and not (source == ("json", "toml", "both")[(n + si) % 3] and (has_toml or n % 4 == 0)
+                                          or (source == "toml" and has_toml and (fin != "hex" or fout != "hex"))):
+                            continue
+                        out.append(case("io-%s" % scn, "main_io", scn, has_toml, fin, fout, source))
+    return out
+
+
 def gen_cases(rng, tier):
-    return gen_conv_cases(rng, tier) + gen_prec_cases(rng, tier)
+    return gen_conv_cases(rng, tier) + gen_prec_cases(rng, tier) + gen_io_cases(rng, tier)
 
 
 # ======================================================================================
@@ -1015,6 +1215,8 @@ def prop_oracle(c):
         return _oracle_convert(c)
     if op in ("main_base", "main_sub"):
         return _oracle_main(c)
+    if op == "main_io":
+        return io_verdict(*c["args"][:5])
     if op == "format_option":
         import bits.__main__ as M
         want = ref_format_arg(c["args"][0])
@@ -1038,6 +1240,14 @@ def extra_checks(ctx):
     if r[0] != "ok" or common.norm(r[1]) != want:
         out.append({"kind": "obligation", "obligation": "harness:accepts-table",
                     "detail": "configurable options per subcommand changed: live %r, harness %r" % (r, want)})
+    r = impl.call("io_branches", [])
+    covered = sorted(set(tuple(b) for sc in SCENARIOS.values() for b in sc[6]))
+    live = sorted(tuple(x) for x in common.norm(r[1])) if r[0] == "ok" else None
+    if live != covered:
+        out.append({"kind": "obligation", "obligation": "harness:io-branches",
+                    "detail": "read_bytes/write_bytes calls of main() with a configured format changed: not covered by a "
+                              "scenario %r, scenario without a call %r" % (
+                                  sorted(set(live or []) - set(covered)), sorted(set(covered) - set(live or [])))})
     import random
     if ctx["broken"] and tier == "quick":
         tier = "thorough"
@@ -1048,7 +1258,7 @@ def extra_checks(ctx):
     n = bad = k = 0
     seen = set()
     for c in cases:
-        if c["op"] == "accepts_table":
+        if c["op"] in ("accepts_table", "io_branches"):
             continue
         k += 1
         if c["cls"] in ("w-exh2", "conv-exh2", "w-exh3-sample", "conv-exh3-sample", "r-bin-fuzz", "r-hex-fuzz") and k % 4:
@@ -1162,3 +1372,9 @@ def _coq_dict_in_order(v):
     """the model returns Config attributes in definition order; canon() sorted them -- undo for the Coq literal"""
     d = {k: w for k, w in v}
     return _coq_dict([(k, d[k]) for k in CONFIG_KEYS if k in d] + [(k, w) for k, w in v if k not in CONFIG_KEYS])
+
+
+# ops whose answer must not depend on the concrete bytes-like type of their arguments (they agree on the pinned tree;
+# tools/bytearray_probe.py); common.py re-runs a sample of their cases with bytearray arguments
+BYTEARRAY_OPS = {'write_bytes', 'read_bytes', 'convert', 'main_base'}
+MEMORYVIEW_OPS = {'convert', 'main_base', 'read_bytes', 'write_bytes'}
